@@ -2,6 +2,7 @@ package vstate
 
 import (
 	"fmt"
+	"strings"
 	"math/rand/v2"
 	"testing"
 
@@ -140,9 +141,16 @@ func (c *checker) checkView(view string, block, head uint64, sr core.StateReader
 			sv, err := sr.ContractStorage(addr, key)
 			c.reads++
 			if !exists {
-				// storage of a contract that does not exist: zero or not-found, never a value
-				if err == nil && !sv.IsZero() {
+				// storage of a contract that does not exist at that block: never a value. A historical
+				// view must report not-found (both implementations do - also for the system contracts
+				// 0x1/0x2 before their first write and after that write was reverted); the head view
+				// answers zero on both implementations (the RPC layer adds the existence check), which
+				// is accepted there.
+				switch {
+				case err == nil && !sv.IsZero():
 					c.fail("wrong-value", view, block, head, "storage", addr, key, "0 or not found", sv.String())
+				case err == nil && !strings.HasPrefix(view, "head"):
+					c.fail("missing-not-found", view, block, head, "storage", addr, key, "not found (contract does not exist at that block)", sv.String())
 				}
 				continue
 			}
